@@ -1,6 +1,7 @@
 package main
 
 import (
+	"go/constant"
 	"fmt"
 	"go/types"
 
@@ -597,6 +598,22 @@ func checkHandleValidityFromTable(c *Ctx, rule string) {
 					for _, l := range leavesOf(lk.X) {
 						if l.Kind == leafFieldLoad && l.Field == spec.table {
 							fromLookup = true
+						}
+					}
+				}
+			}
+			// explicit `return nil, false` / `return f, true` under the lookup's own ok is the same answer
+			if k, isK := rl.v.(*ssa.Const); isK && !fromLookup && k.Value != nil {
+				for cv, truth := range edgeConds(rl.block, rl.pred) {
+					ex, ok := cv.(*ssa.Extract)
+					if !ok || ex.Index != 1 {
+						continue
+					}
+					if lk, ok := ex.Tuple.(*ssa.Lookup); ok && lk.CommaOk && constant.BoolVal(k.Value) == truth {
+						for _, l := range leavesOf(lk.X) {
+							if l.Kind == leafFieldLoad && l.Field == spec.table {
+								fromLookup = true
+							}
 						}
 					}
 				}
